@@ -401,3 +401,152 @@ theorem subscribe_spec {r : RSys} (h : r.RegInv) {y : RConn} (hy : y ∈ r.conns
 
 end RSys
 end Wormhole
+
+namespace Wormhole
+namespace RSys
+
+/-- `if self._listening: self._mailbox.remove_listener(self)`, then a record update that clears
+    `_listening` (and keeps `_mailbox`, `_app_id`) -/
+theorem unlisten_spec {r : RSys} (h : r.RegInv) {y : RConn} (hy : y ∈ r.conns) {o : Nat} (hm : y.mailbox = some o)
+    (f0 : RConn → RConn) (hid : ∀ z, (f0 z).id = z.id) (hmb : ∀ z, (f0 z).mailbox = z.mailbox)
+    (happ : ∀ z, (f0 z).app = z.app) (hl : ∀ z, (f0 z).listening = false) :
+    ((if y.listening then r.removeListener o y.id else r).updConn y.id f0).RegInv := by
+  have hyu : ∀ z ∈ r.conns, z.id = y.id → z = y := fun z hz e => pw_eq (f := RConn.id) h.connIds hz hy e
+  cases hyl : y.listening with
+  | false =>
+    simp only [Bool.false_eq_true, if_false]
+    refine h.updConn y.id f0 hid ?_
+    intro z hz e
+    have := hyu z hz e; subst this
+    simp only [hmb, happ, hl]
+    refine ⟨h.heldObj z hz, by simp, ?_, ?_⟩
+    · intro k hk e'
+      have := h.listenIff z hz k hk e'
+      rw [hyl] at this; simpa using this
+    · intro k hk hc
+      obtain ⟨y', hy', e1, e2⟩ := h.lisConn k hk _ hc
+      have := hyu y' hy' e1; subst this; exact e2
+  | true =>
+    simp only [if_true]
+    refine h.relabel (fun z => if z.id = y.id then f0 z else z)
+      (fun k => if k.oid = o then { k with listeners := k.listeners.filter (fun d => ¬ d = y.id) } else k)
+      rfl rfl rfl rfl rfl ?_ ?_ ?_ ?_ ?_ ?_ ?_ ?_ ?_ ?_
+    · intro z; split <;> simp [hid]
+    · intro k; split <;> rfl
+    · intro k; split <;> rfl
+    · intro k; split <;> rfl
+    · intro k; split <;> rfl
+    · intro z hz o'
+      split
+      · rw [hmb, happ]; exact h.heldObj z hz o'
+      · exact h.heldObj z hz o'
+    · intro z hz k hk
+      split
+      · rw [hl]; intro _ hh; cases hh
+      · exact h.heldReg z hz k hk
+    · intro z hz k hk
+      by_cases e : z.id = y.id
+      · have := hyu z hz e; subst this
+        simp only [if_true, hmb, hl]
+        intro e'
+        rw [hm] at e'
+        simp only [Option.some.injEq] at e'
+        simp [← e']
+      · simp only [e, if_false]
+        intro e'
+        have := h.listenIff z hz k hk e'
+        split
+        · simp only [List.mem_filter, decide_not, Bool.not_eq_eq_eq_not, Bool.not_true, decide_eq_false_iff_not, e,
+            not_false_eq_true, and_true]
+          exact this
+        · exact this
+    · intro k hk c hc
+      have hc' : c ∈ k.listeners := by
+        split at hc
+        · exact (List.mem_filter.1 hc).1
+        · exact hc
+      obtain ⟨z, hz, e1, e2⟩ := h.lisConn k hk c hc'
+      refine ⟨z, hz, e1, ?_⟩
+      split
+      · rw [hmb]; exact e2
+      · exact e2
+    · intro k hk
+      split
+      · exact List.Pairwise.filter _ (h.lisNodup k hk)
+      · exact h.lisNodup k hk
+
+theorem Registered.mono {r r' : RSys} (ha : ∀ p ∈ r.apps, p ∈ r'.apps) (hn : ∀ ns ∈ r.nss, ns ∈ r'.nss)
+    {a m : String} {o : Nat} (h : r.Registered a m o) : r'.Registered a m o := by
+  obtain ⟨ns, h1, h2, h3⟩ := h
+  exact ⟨ns, hn ns h1, ha _ h2, h3⟩
+
+theorem getApp_fst_some {r : RSys} {app : String} {n : Nat} (e : alookup r.apps app = some n) :
+    r.getApp app = (r, n) := by
+  unfold getApp; rw [e]
+
+theorem getApp_fst_none {r : RSys} {app : String} (e : alookup r.apps app = none) :
+    r.getApp app = ({ r with apps := r.apps ++ [(app, r.nextOid)], nss := r.nss ++ [{ oid := r.nextOid, app := app }],
+              nextOid := r.nextOid + 1 }, r.nextOid) := by
+  unfold getApp; rw [e]
+
+/-- `Server.get_app`: the registered namespace of `app` (created if need be); nothing else changes -/
+theorem getApp_spec {r : RSys} (h : r.RegInv) (app : String) :
+    (r.getApp app).1.RegInv ∧ (r.getApp app).1.abs = r.abs ∧ (r.getApp app).1.conns = r.conns ∧
+      (r.getApp app).1.mbs = r.mbs ∧ (r.getApp app).1.core = r.core ∧
+      (app, (r.getApp app).2) ∈ (r.getApp app).1.apps := by
+  cases e : alookup r.apps app with
+  | some n =>
+    rw [getApp_fst_some e]
+    exact ⟨h, rfl, rfl, rfl, rfl, (alookup_eq_some h.appsKey).1 e⟩
+  | none =>
+    rw [getApp_fst_none e]
+    refine ⟨?_, rfl, rfl, rfl, rfl, by simp⟩
+    have hk := alookup_eq_none.1 e
+    have hmono : ∀ a m o, r.Registered a m o →
+        ({ r with apps := r.apps ++ [(app, r.nextOid)], nss := r.nss ++ [{ oid := r.nextOid, app := app }],
+              nextOid := r.nextOid + 1 } : RSys).Registered a m o :=
+      fun a m o hr => hr.mono (fun p hp => List.mem_append_left _ hp) (fun ns hns => List.mem_append_left _ hns)
+    refine ⟨h.connIds, ?_, ?_, h.mbOids, ?_, ?_, ?_, ?_, ?_, ?_, ?_, h.heldObj, ?_, h.listenIff, h.lisConn, h.lisNodup⟩
+    · simp only [List.pairwise_append, List.pairwise_cons, List.Pairwise.nil, List.mem_singleton]
+      refine ⟨h.appsKey, by simp, ?_⟩
+      intro a ha b hb; subst hb; exact hk a ha
+    · simp only [List.pairwise_append, List.pairwise_cons, List.Pairwise.nil, List.mem_singleton]
+      refine ⟨h.nsOids, by simp, ?_⟩
+      intro a ha b hb; subst hb
+      have := h.nsBound a ha
+      simp only; omega
+    · intro ns hns
+      simp only [List.mem_append, List.mem_singleton] at hns
+      rcases hns with hns | rfl
+      · have := h.nsBound ns hns; simp only; omega
+      · simp
+    · intro k hk'; have := h.mbBound k hk'; simp only; omega
+    · intro p hp
+      simp only [List.mem_append, List.mem_singleton] at hp
+      rcases hp with hp | rfl
+      · obtain ⟨ns, hns, e1, e2⟩ := h.appsNs p hp
+        exact ⟨ns, List.mem_append_left _ hns, e1, e2⟩
+      · exact ⟨_, List.mem_append_right _ (List.mem_singleton.2 rfl), rfl, rfl⟩
+    · intro ns hns
+      simp only [List.mem_append, List.mem_singleton] at hns
+      rcases hns with hns | rfl
+      · exact h.boxesKey ns hns
+      · simp
+    · intro ns hns p hp
+      simp only [List.mem_append, List.mem_singleton] at hns
+      rcases hns with hns | rfl
+      · exact h.boxesMb ns hns p hp
+      · simp at hp
+    · intro ns hns hne
+      simp only [List.mem_append, List.mem_singleton] at hns
+      rcases hns with hns | rfl
+      · exact List.mem_append_left _ (h.nsReg ns hns hne)
+      · simp at hne
+    · intro k hk'
+      obtain ⟨ns, hns, e1, e2⟩ := h.mbNs k hk'
+      exact ⟨ns, List.mem_append_left _ hns, e1, e2⟩
+    · intro x hx k hk' hm hl
+      exact hmono _ _ _ (h.heldReg x hx k hk' hm hl)
+
+end RSys
+end Wormhole
